@@ -20,7 +20,7 @@ run on the dual input `(x, 1)` returns `(value, exp(log-det))`.
 What is trusted: PyTorch autograd for compositions of built-in ops (chain rule through conditioners, sums over features).
 
 **Not covered by any theorem** (external audit; carried by the autograd-vs-dual-number correspondence and the finite-difference
-oracle): the cubic inverse (`Properties/C16M.lean` proves the dual run WRONG in a parameter direction on a witness), NaiveLinear and normalisation layers in training mode (LU, BatchNorm in evaluation mode, ActNorm: `Properties/C16L.lean`; QR, SVD, Householder, 1×1 convolution: `Properties/C16O.lean`), whole flows / `log_prob`, "every trainable parameter receives a
+oracle): the cubic inverse (`Properties/C16M.lean` proves the dual run WRONG in a parameter direction on a witness), NaiveLinear and normalisation layers in training mode (LU, BatchNorm in evaluation mode, ActNorm: `Properties/C16L.lean`; QR, SVD, Householder, 1×1 convolution: `Properties/C16O.lean`), whole flows other than cascades of the linear / normalisation stages over a normal base (`Properties/C16F.lean`) / `log_prob`, "every trainable parameter receives a
 gradient", finiteness of gradients, second backward.  Coupling layers: bounded RQ elements only (`Properties/C16D.lean`).
 -/
 open DualSound NF
